@@ -187,7 +187,8 @@ func (v objectValidator) validateTypeRules(objectNode *schema.ObjectNode, value 
 
 // keyMatchesType reports whether the key is accepted by the string type used as a
 // key shortcut: a string type without rules stands for the key equal to its
-// example, a string type with rules for the keys it accepts as a value. The type
+// example, a string type with rules for the keys it accepts as a value, as does an
+// alternative "string" of the "or" rule, which has no example of its own. The type
 // may be a reference or a list of alternatives (@k = @k2, @k = @a | @b, the rules
 // "type": "@k2" and "or"): the key is accepted when one of them accepts it.
 // visiting holds the names of the type lists walked through already, each is
@@ -222,7 +223,9 @@ func (v objectValidator) keyMatchesType(name string, value jbytes.Bytes, visitin
 		panic(errors.Format(errors.ErrInvalidKeyType, v.requiredKeysString()))
 	}
 
-	if node.ConstraintMap().Len() == 0 {
+	// The value of the alternative "string" or {type: "string"} of the "or" rule (a
+	// mixed node) is not its example but the EXAMPLE the rule is written on.
+	if _, ok := node.(*schema.MixedNode); !ok && node.ConstraintMap().Len() == 0 {
 		// Compare the strings, not their spelling: "\u0061bc" is the key "abc".
 		return bytes.Equal(node.Value().Unquote(), value.Unquote())
 	}
